@@ -27,7 +27,7 @@ def cases(draw):
             "streamline": draw(st.integers(0, 3)) == 0,
             "debug": draw(st.integers(0, 4)) == 0,  # verbose mode: must not change what is computed
             "reuse": draw(st.integers(0, 2)) == 0,  # re-enter the previous Calibration object instead of a fresh one
-            "batches": draw(st.lists(st.tuples(st.integers(-3, 3), st.sampled_from(["normal", "normal", "normal", "absmax-is-qmax", "same"])), min_size=1, max_size=4)),
+            "batches": draw(st.lists(st.tuples(st.integers(-3, 3), st.sampled_from(["normal", "normal", "normal", "absmax-is-qmax", "same", "refill"])), min_size=1, max_size=4)),
         })
     return {
         "model": draw(st.sampled_from(MODELS)),
@@ -152,6 +152,10 @@ def _exec_case(case):
                 for (e, kind) in cx["batches"]:
                     if kind == "same" and last_batch is not None:
                         x = last_batch
+                    elif kind == "refill" and last_batch is not None:
+                        # a static input buffer: the SAME tensor object refilled in place with the next batch
+                        x = last_batch
+                        x.copy_(M.batch(shape, dtype, g, bsz=3, mag=10.0**e))
                     else:
                         x = M.batch(shape, dtype, g, bsz=3, mag=10.0**e)
                         if kind == "absmax-is-qmax":
